@@ -279,11 +279,12 @@ end povm
 
 /-! ### Chebyshev bases (`unique_determine/_internal.py:61-100`), Float model -/
 
-/-- `T_n(x)` by the three-term recurrence -/
-def chebT (x : Float) : Nat → Float
+/-- `T_n(x)` by the three-term recurrence `T_{n+2} = 2x T_{n+1} - T_n` (`2x·T` written as `x·T + x·T`, which is the same
+binary64 value); generic in the scalar so that the orthogonality statement can be written over `ℝ`. -/
+def chebT {α : Type} [Add α] [Sub α] [Mul α] [One α] (x : α) : Nat → α
   | 0 => 1
   | 1 => x
-  | n + 2 => 2 * x * chebT x (n + 1) - chebT x n
+  | n + 2 => (x * chebT x (n + 1) + x * chebT x (n + 1)) - chebT x n
 
 /-- `hf_chebval_n(x, n)`: `T_n(x)·(1 if n==0 else √2)` -/
 def chebvalN (x : Float) (n : Nat) : Float := chebT x n * (if n = 0 then 1 else Float.sqrt 2)
